@@ -138,7 +138,7 @@ func genRenderCase(rng *rand.Rand) *renderCase {
 		Status:     []int{200, 201, 202, 204, 301, 400, 404, 418, 500, 503, 100 + rng.Intn(500), 599, 600, 999, 600 + rng.Intn(400)}[rng.Intn(15)],
 		Charset:    []string{"", "", "utf-8", "gbk", "ISO-8859-1"}[rng.Intn(5)],
 		JSONIndent: []string{"", "", "  ", "\t", "    "}[rng.Intn(5)],
-		XMLIndent:  []string{"", "", "  ", "\t"}[rng.Intn(4)],
+		XMLIndent:  []string{"", "", "  ", "\t", "--", ". ", "|   ", "\u00a0", "\n"}[rng.Intn(9)],
 		Depth:      rng.Intn(3),
 		Where:      []string{"app", "group", "route"}[rng.Intn(3)],
 		Overlap:    rng.Intn(5) == 0,
